@@ -437,7 +437,10 @@ def decode_template(raw, args):
 def check(report, tier, only=None):
     report.trusted += ['matchit::Router::{insert,at}: what it matches and that it never panics (out of reach under CBMC, DESIGN 0)', 'BTreeMap/HashMap as finite maps', 'z3 5.1 (sequence theory for the RPC prefix)']
     report.outside += ['which strings matchit matches to which pattern', 'tower BoxCloneService/oneshot plumbing']
-    for n, f in (('dispatch', ob_call), ('fallback', ob_fallback_notfound), ('route_layer', ob_route_layer), ('route_and_merge', ob_route_and_merge), ('rpc_service', ob_add_rpc_service)):
+    _C17 = __import__('props.C17', fromlist=['x'])
+    # the last hop of dispatch: inside a generated server the request reaches the method whose full path equals the route, and no other string does
+    for n, f in (('dispatch', ob_call), ('fallback', ob_fallback_notfound), ('route_layer', ob_route_layer), ('route_and_merge', ob_route_and_merge), ('rpc_service', ob_add_rpc_service),
+                 ('generated_route_strings', _C17.ob_route_strings), ('generated_example', _C17.ob_generated_program)):
         if only and not any(s in n for s in only):
             continue
         f(report)
